@@ -200,7 +200,7 @@ def vhdx(L, rnd):
     if L.get('rmeta', True):
         ents.append(guid_bytes(METAREGION) + struct.pack('<QII', meta_off, tok(L.get('meta_len', '1048576')) & 0xffffffff, 1))
     for _ in range(L.get('rpost', 0)):
-        ents.append(guid_bytes(BAT_REGION) + struct.pack('<QII', 3 << 20, 1 << 20, 1))
+        ents.append(guid_bytes(BAT_REGION) + struct.pack('<QII', 3 << 20, tok(L.get('rpost_len', '1048576')) & 0xffffffff, 1))
     rcount = L.get('rcount')
     if rcount is None:
         rcount = len(ents)
